@@ -18,9 +18,13 @@ both forms read (the caller changes it again right after the call); no internal 
 Not generated (EITHER / excluded by DESIGN): cancellation of awaited or outer futures, yields of
 non-yieldables, BaseException-only errors, StopIteration.  Construction rules that keep the two forms
 equivalent *by the language*, not by Tornado: ``raise gen.Return(v)`` is rendered as ``return v`` when an
-enclosing try has ``except Exception`` (Return is an Exception); ContextVar *writes* happen in main only
-(a decorated sub, or a native sub wrapped in a Task by the generator form, gets a context copy, while
-``await native_sub()`` shares the task's context).
+enclosing try has ``except Exception`` (Return is an Exception); ContextVar *writes* happen in main and in
+decorated subs only (a decorated sub gets a context copy at the call under both forms of main; a native sub
+is wrapped in a Task = copy by the generator form but shares the task's context under ``await native_sub()``).
+Absolute context clauses on top of the differential: right after the call and at the end the *caller* still
+reads its own value (the coroutine's set() never leaks out); in the enumerated ``ctxfam`` family [await a done
+future; set; read; await a pending future; read (; reset)] - in main, in a decorated sub, and decorated-in-
+decorated - the writer reads its own value before and after the resumption and every caller keeps its own.
 
 Sensitivity (quick tier, seed 1, one textual mutation at a time on a scratch copy of /repo/tornado/gen.py):
   * Runner.run: `self.gen.send(None)` instead of `self.gen.throw(exc)` (DESIGN)       -> caught (C37.outcome_differs)
@@ -37,6 +41,11 @@ Sensitivity (quick tier, seed 1, one textual mutation at a time on a scratch cop
     (C37.outcome_differs) since exception instances, a BaseException-subclass instance and exception classes were
     added to the pool of future results and return values; the class / BaseException variants of the mutant are
     caught too (C37.internal_error_logged / C37.value_raised_as_exception).  Earlier version: missed.
+  * Runner.__init__: plain `self.run()` instead of `self.ctx_run(self.run)` when the FIRST yielded future is already
+    done (the next segment then runs in the caller's live context)                      -> caught at seeds 1-3, systematically:
+    all 96 cases of the enumerated `ctxfam` family fail (main: C37.trace_differs / coroutine_context_leaked_into_caller;
+    decorated sub and decorated-in-decorated: C37.context_value_lost_or_leaked, an absolute clause because the sub is the
+    same object in both forms of main).  Earlier version: only found by the random part at some seeds.
   DESIGN's "fast path returning before finally runs" has no small textual equivalent (the generator itself runs the
   finally); the two fast-path mutants above stand in for it.
 """
@@ -55,7 +64,7 @@ from vlib.loopkit import Logs, norm
 PROPERTY = "C37"
 READY = True
 RULE = (
-    "Hypothesis generates (program AST, 1-4 schedules); program: <=6 top-level statements, nesting depth <=3, "
+    "enumerated ctxfam family (96 context-propagation programs x 2 schedules) + Hypothesis generates (program AST, 1-4 schedules); program: <=6 top-level statements, nesting depth <=3, "
     "<=2 subs (native/decorated), <=4 futures; schedule: per-future outcome (int result / an exception instance or "
     "class handed over as a plain result value / failure ErrA, ErrB), already-done "
     "flags, ordered completion groups; thorough adds all singleton-step permutations of the first schedule. "
@@ -227,7 +236,9 @@ class Render:
             out.append("    if 0:")
             out.append("        yield")
         out.append("    emit(('enter', %r, CV.get()))" % name)
-        self.body(stmts, style, 1, False, is_main, maxsub)
+        # ContextVar writes: main, and decorated subs (a decorated coroutine gets a context copy at the call in both
+        # forms of main, so its writes are invisible to the caller either way); never native subs (see docstring)
+        self.body(stmts, style, 1, False, is_main or style == "gen", maxsub)
         out.append("")
 
     def source(self, main_style):
@@ -265,6 +276,7 @@ async def _scenario(src, nf, sched, style):
     else:
         out = asyncio.ensure_future(ns["main"]())
     fast = out.done()
+    caller_reads = {"caller_after_call": CV.get()}  # the coroutine's own set() must not be visible to the caller
     CV.set("changed-after-call")
     await vtime.settle()
     trace.append(("step", 0))
@@ -279,12 +291,13 @@ async def _scenario(src, nf, sched, style):
             complete(i)
     await vtime.settle()
     trace.append(("step", "end"))
+    caller_reads["caller_at_end"] = CV.get()
     final = norm(out)
     if final[0] == "ok":
         final = ("ok", repr(final[1]))  # values may be exception instances (compared by repr, not identity)
     for f in F:
         norm(f)
-    return trace, final, fast
+    return trace, final, fast, caller_reads
 
 
 def _count(stmts, pred):
@@ -329,12 +342,12 @@ def run_case(ctx, case):
                 except DataBase as e:
                     # DataBase only ever travels as a value; if it is raised, something threw a value
                     ctx.fail("C37.value_raised_as_exception", {"style": style, "exc": repr(e), "src": src, "sched": sched})
-                    res[style] = ([("escaped", repr(e))], ("escaped", repr(e)), False)
+                    res[style] = ([("escaped", repr(e))], ("escaped", repr(e)), False, {})
                 bad = [x for x in logs.records if x[1] >= 40 and x[2].startswith("Exception in callback")]
             if bad:
                 ctx.fail("C37.internal_error_logged", {"style": style, "records": [(x[0], x[2][:200], repr(x[4])) for x in bad[:3]],
                                                         "src": src, "sched": sched})
-        (tg, fg, fastg), (tn, fn_, _fastn) = res["gen"], res["native"]
+        (tg, fg, fastg, cg), (tn, fn_, _fastn, cn) = res["gen"], res["native"]
         detail = {"sched": sched, "gen_src": src_gen, "native_src": src_nat}
         if fg == ("pending",) or fn_ == ("pending",):
             ctx.fail("C37.pending_at_quiescence", dict(detail, gen_final=repr(fg), native_final=repr(fn_), gen_trace=repr(tg)))
@@ -347,6 +360,18 @@ def run_case(ctx, case):
             ent = [e for e in t if e[0] == "enter" and e[1] == "main"]
             if not ent or ent[0][2] != "caller":
                 ctx.fail("C37.caller_context_not_visible", dict(detail, trace=repr(t)))
+        for style, t, cr in (("gen", tg, cg), ("native", tn, cn)):
+            for tag, want in (("caller_after_call", "caller"), ("caller_at_end", "changed-after-call")):
+                if tag in cr and cr[tag] != want:
+                    ctx.fail("C37.coroutine_context_leaked_into_caller", dict(detail, style=style, at=tag, caller_read=cr[tag], want=want))
+            if "expect_ctx" in case:
+                reads = [e[1] for e in t if e[0] == "ctx"]
+                resets = [e[1] for e in t if e[0] == "reset"]
+                if reads != list(case["expect_ctx"]) or resets != list(case["expect_reset"]):
+                    ctx.fail("C37.context_value_lost_or_leaked", dict(detail, style=style, reads=reads, want_reads=list(case["expect_ctx"]),
+                                                                      resets=resets, want_resets=list(case["expect_reset"]), trace=repr(t)))
+        if "expect_ctx" in case:
+            labels.add("ctx_family")
         # labels from what really happened in the decorated form
         if fastg:
             labels.add("fast_path_no_yield")
@@ -511,9 +536,51 @@ def case_s(all_perms):
     return c()
 
 
-PARTS = {"main": run_case}
+def ctx_family():
+    """Deterministic family: [await an already-done future; set the ContextVar; read; await a PENDING future; read
+    (; reset the token)] located in main, in a decorated sub, or in a decorated sub called by a decorated sub.  The
+    expected reads are absolute (not only differential, because a decorated sub is the same object in both forms of
+    main): the writer reads its own value before and after the resumption, every caller keeps reading its own."""
+    firsts = {"fut": ("fut", 0), "list": ("list", [("fut", 0)]), "empty": ("list", []), "dict": ("dict", [("fut", 0)])}
+    sched1 = {"out": [("r", 5), ("r", 6)], "pre": [True, False], "steps": [[1]]}
+    sched2 = {"out": [("v", "E:erra"), ("r", 8)], "pre": [True, False], "steps": [[1]]}
+    for nest in ("main", "sub", "subsub"):
+        for first in sorted(firsts):
+            for setk in ("ctx_set", "ctx_tok"):
+                for tail in ("plain", "finally"):
+                    for force in (False, True):
+                        val = "m1" if setk == "ctx_set" else "k1"
+                        second = ("await", ("fut", 1))
+                        reads = [val, val]
+                        if tail == "finally":
+                            second = ("try", [second], [], None, [("ctx_get",)])
+                            reads = [val, val, val]
+                        pattern = [("await", firsts[first]), (setk, 1), ("ctx_get",), second, ("ctx_get",)]
+                        resets = []
+                        if setk == "ctx_tok":
+                            pattern.append(("ctx_reset",))
+                            resets = ["caller"]
+                        pattern.append(("return", 7))
+                        caller_body = lambda k: [("await", ("sub", k)), ("ctx_get",), ("return", "x")]  # noqa: E731
+                        if nest == "main":
+                            prog = {"nf": 2, "subs": [], "main": pattern, "force_gen": force}
+                        elif nest == "sub":
+                            prog = {"nf": 2, "subs": [{"kind": "decorated", "force_gen": force, "body": pattern}],
+                                    "main": caller_body(0), "force_gen": False}
+                            reads = reads + ["caller"]
+                        else:
+                            prog = {"nf": 2, "subs": [{"kind": "decorated", "force_gen": force, "body": pattern},
+                                                      {"kind": "decorated", "force_gen": False, "body": caller_body(0)}],
+                                    "main": caller_body(1), "force_gen": False}
+                            reads = reads + ["caller", "caller"]
+                        yield {"prog": prog, "scheds": [sched1, sched2], "all_perms": False,
+                               "expect_ctx": reads, "expect_reset": resets}
+
+
+PARTS = {"main": run_case, "ctxfam": run_case}
 
 
 def main(ctx):
     ctx.run_replays(PARTS)
+    ctx.enumerate(ctx_family(), run_case, name="ctxfam")
     ctx.explore(case_s(ctx.thorough), run_case, ctx.n(500, 20000), name="main")
